@@ -190,8 +190,10 @@ Kernel(fn, s) ==
     [] fn = "present_over_time" -> I(1)
     [] fn = "last_over_time"    -> s[Len(s)]
     [] fn = "sum_over_time"     -> IF AllInt(s) THEN SumVals(s) ELSE Opaque
-    [] fn = "max_over_time"     -> IF AllInt(s) THEN MaxVal(s) ELSE Opaque
-    [] fn = "min_over_time"     -> IF AllInt(s) THEN MinVal(s) ELSE Opaque
+    \* the reference starts with the first value and replaces it when v > max (v < min) or max (min) is NaN:
+    \* a NaN is skipped as soon as the window also holds a number
+    [] fn = "max_over_time"     -> MaxVal(s)
+    [] fn = "min_over_time"     -> MinVal(s)
     [] fn = "changes"           -> IF AllInt(s) THEN I(Cardinality({i \in 2..Len(s) : s[i].v # s[i-1].v})) ELSE Opaque
     [] fn = "resets"            -> IF AllInt(s) THEN I(Cardinality({i \in 2..Len(s) : s[i].v < s[i-1].v})) ELSE Opaque
     [] OTHER                    -> Opaque
